@@ -419,10 +419,13 @@ func (x *Extractor) cacheGet(key extractorKey) (any, bool) {
 }
 
 // cacheStoreOrLoad publishes res under every reference in refs and returns res.
-// If the first reference is already cached — another goroutine decoded the same
-// object concurrently — it stores nothing and returns the existing value, so
+// If one of the references is already cached — another goroutine decoded the
+// same object concurrently, possibly entering the chain of references further
+// down — it adopts the first cached value found along refs, publishes that
+// value under the references which are not cached yet, and returns it, so
 // every caller ends up with one shared object. The first writer for a reference
-// wins; later racers adopt its result and discard their own.
+// wins and an existing entry is never overwritten; later racers adopt its
+// result and discard their own.
 //
 // Publishing this way (rather than waiting on an in-flight marker) keeps decode
 // deadlock-free: two goroutines decoding mutually-referential objects never wait
@@ -432,11 +435,17 @@ func (x *Extractor) cacheStoreOrLoad(refs []Reference, tp reflect.Type, res any)
 	defer verifYield("cacheStoreOrLoad:unlocked")
 	x.mu.Lock()
 	defer x.mu.Unlock()
-	if v, ok := x.cache[extractorKey{ref: refs[0], tp: tp}]; ok {
-		return v
+	for _, ref := range refs {
+		if v, ok := x.cache[extractorKey{ref: ref, tp: tp}]; ok {
+			res = v
+			break
+		}
 	}
 	for _, ref := range refs {
-		x.cache[extractorKey{ref: ref, tp: tp}] = res
+		key := extractorKey{ref: ref, tp: tp}
+		if _, ok := x.cache[key]; !ok {
+			x.cache[key] = res
+		}
 	}
 	return res
 }
